@@ -26,7 +26,7 @@ BOUNDS = {
                                "every subset of parent build tags; parent commits with / without own matching message"},
 }
 BOUNDS["thorough"] = dict(BOUNDS["quick"], **{"(b) histories": BOUNDS["quick"]["(b) histories"].replace("2-4 builds", "2-5 builds").replace("1-4 commits", "1-5 commits")})
-OUTSIDE = ["merges inside the parent history", "more than 2 repositories in part (b)", "pins naming non-existent builds", "commit times outside the cut-off windows (all stub commits within one day)",
+OUTSIDE = ["parent merges other than one fork-merge inside a branch", "more than 2 repositories in part (b)", "pins naming non-existent builds", "commit times outside the cut-off windows (all stub commits within one day)",
            "component with several release branches"]
 STUBS = ["in-memory git repositories (as C06) with a DEPENDS file per parent commit read by a ProjectRepo subclass defined in the harness"]
 ASSUMPTIONS = ["'contains' = pinned build number >= the component build's number (component history is linear with increasing numbers)"]
@@ -117,6 +117,10 @@ PARENT_SHAPES = {
     "linear5": ({1: [], 2: [1], 3: [2], 4: [3], 5: [4]}, {"master": 5}),
     "release+master": ({1: [], 2: [1], 3: [2], 4: [1]}, {"release/1.0": 3, "master": 4}),
     "release+master2": ({1: [], 2: [1], 3: [2], 4: [2], 5: [4]}, {"release/1.0": 3, "master": 5}),
+    # merges inside one parent branch: two sub-branches (possibly both built, with different pins) and their merge
+    "pmerge": ({1: [], 2: [1], 3: [1], 4: [2, 3]}, {"master": 4}),
+    "pmerge-swapped": ({1: [], 2: [1], 3: [1], 4: [3, 2]}, {"master": 4}),
+    "pmerge-tail": ({1: [], 2: [1], 3: [1], 4: [2, 3], 5: [4]}, {"master": 5}),
 }
 
 
@@ -181,18 +185,23 @@ def run_component_case(m, cmatch: Set[int], pshape_name: str, pins: Dict[int, in
             lower |= R[lb]
         own_builds = sorted(c for c in R[b] if (c in ptags or c == pheads[b]) and c not in lower)
         path_builds = sorted(c for c in R[b] if (c in ptags or c == pheads[b]))
+        anc = {c: reach(pshape, c) - {c} for c in path_builds}          # proper ancestors
         for cb in sorted(cmatch):
-            # first build of this branch (in ancestor order = increasing id on these shapes) whose pin contains the component build
-            first = next((c for c in path_builds if cb in creach[pins[c]]), None)
+            # the first builds of this branch whose pin contains the component build: builds containing it none of whose
+            # ancestor builds contains it (exactly one on a linear history; parallel built sub-branches may give several)
+            containing = [c for c in path_builds if cb in creach[pins[c]]]
+            minimal = [c for c in containing if not any(c2 in anc[c] for c2 in containing)]
             got = [str(x[2]) for x in lib_builds[cb].included_at if x[0] == "app" and str(x[1]) == b]
-            if first is None or first in lower:
-                want: List[str] = []
-                if first is not None:
-                    continue        # first shipping build belongs to a lower-sorted branch: reporting for this branch is not specified
+            if any(c in lower for c in minimal):
+                continue        # a first shipping build belongs to a lower-sorted branch: reporting for this branch is not specified
+            names = ["8888.8888.8888" if (c == pheads[b] and c not in ptags) else f"1.0.{300 + c}" for c in minimal]
+            if len(minimal) <= 1:
+                ok = sorted(got) == sorted(names)
             else:
-                want = ["8888.8888.8888" if (first == pheads[b] and first not in ptags) else f"1.0.{300 + first}"]
-            if sorted(got) != sorted(want):
-                raise Violation(f"included-at :: {what}: component build 7.1.{2000 + cb} is recorded as included at {got} in parent branch {b}, expected exactly {want}")
+                ok = len(got) >= 1 and len(set(got)) == len(got) and set(got) <= set(names)
+            if not ok:
+                raise Violation(f"included-at :: {what}: component build 7.1.{2000 + cb} is recorded as included at {got} in parent branch {b}, "
+                                f"expected exactly {names}" + (" (any non-empty subset: parallel first builds)" if len(minimal) > 1 else ""))
         # a parent build whose pin moves across report-related component builds is reported even without own matching commit
         rb = app_by_name.get(b)
         reported = set()
@@ -200,12 +209,14 @@ def run_component_case(m, cmatch: Set[int], pshape_name: str, pins: Dict[int, in
             for rbuild in rb.get_rbuilds_list():
                 if rbuild.rcommit is not None:
                     reported.add(rbuild.rcommit.commit.cid)
-        shipped: Set[int] = set()
         for c in path_builds:
+            shipped: Set[int] = set()
+            for c2 in path_builds:
+                if c2 in anc[c]:
+                    shipped |= creach[pins[c2]]
             crosses = any(cb in creach[pins[c]] and cb not in shipped for cb in cmatch)
             if crosses and c in own_builds and c not in reported:
                 raise Violation(f"bump-not-reported :: {what}: parent build at commit {c} of branch {b} newly ships a report-related component build (pin {pins[c]}) but is not reported")
-            shipped |= creach[pins[c]]
 
 
 def _pin_assignments(pshape, m):
@@ -260,9 +271,9 @@ def jobs(tier: str) -> List[Job]:
     js = []
     for n in (2, 3, 4):
         js.append(Job(__name__, "h_repo_order", shard={"n": n, "nperm": 6 if n < 4 else (8 if t else 3)}, budget_s=1500 if t else 110, label=f"repo-order:n{n}", must_exhaust=True))
-    parents = ["linear1", "linear2", "linear3", "linear4", "release+master", "release+master2"] + (["linear5"] if t else [])
+    parents = ["linear1", "linear2", "linear3", "linear4", "release+master", "release+master2", "pmerge", "pmerge-swapped"] + (["linear5", "pmerge-tail"] if t else [])
     for p in parents:
-        js.append(Job(__name__, "h_component", shard={"parent": p, "m": [2, 3] if (not t and p in ("linear4", "release+master2")) else ([2, 4] if not t else [2, 5])},
+        js.append(Job(__name__, "h_component", shard={"parent": p, "m": [2, 3] if (not t and p in ("linear4", "release+master2", "pmerge", "pmerge-swapped")) else ([2, 4] if not t else [2, 5])},
                       budget_s=3000 if t else 110, label=f"component:{p}", must_exhaust=not t))
     for comp in COMPONENT_SHAPES:
         for p in (["linear2", "linear3"] if not t else ["linear2", "linear3", "linear4", "release+master"]):
